@@ -59,6 +59,18 @@ type BubbleConfig struct {
 	// Guards: a goroutine parked at the point is enabled only while the
 	// predicate holds (used to model a lock held across parks).
 	Guards map[string]func() bool
+	// PCT, when non-nil, replaces the tape by a priority schedule in the style
+	// of probabilistic concurrency testing: every goroutine gets a pseudo-random
+	// priority derived from Seed and its name, the highest-priority enabled
+	// goroutine always runs, and at each decision index listed in ChangeAt the
+	// goroutine that was about to run drops to the lowest priority instead.
+	PCT *PCT
+}
+
+// PCT configures the priority strategy (see BubbleConfig.PCT).
+type PCT struct {
+	Seed     uint32 `json:"seed"`
+	ChangeAt []int  `json:"change_at"`
 }
 
 // G is a goroutine known to the scheduler.
@@ -101,6 +113,7 @@ type Bubble struct {
 	events  []Event
 	out     *Outcome
 	hash    uint64
+	prio    map[string]int64 // PCT priorities by goroutine name
 }
 
 // Current is the bubble whose hooks are active (nil outside runs).
@@ -332,6 +345,27 @@ func (b *Bubble) loop(clients []Client) {
 			t = b.cfg.Tape[out.Decisions]
 		}
 		g := en[int(t)%len(en)]
+		if p := b.cfg.PCT; p != nil {
+			best := func() *G {
+				var top *G
+				for _, x := range en {
+					if _, ok := b.prio[x.Name]; !ok {
+						b.prio[x.Name] = int64(mix(uint64(p.Seed), x.Name) >> 2)
+					}
+					if top == nil || b.prio[x.Name] > b.prio[top.Name] {
+						top = x
+					}
+				}
+				return top
+			}
+			g = best()
+			for k, at := range p.ChangeAt {
+				if at == out.Decisions {
+					b.prio[g.Name] = -int64(k) - 1 // below every initial priority
+					g = best()
+				}
+			}
+		}
 		if g != b.running {
 			stats.Switches++
 		}
@@ -365,6 +399,7 @@ func RunBubble(t *testing.T, cfg BubbleConfig, clients []Client, events []Event)
 		nclient: len(clients),
 		events:  append([]Event(nil), events...),
 		out:     &Outcome{},
+		prio:    map[string]int64{},
 	}
 	sort.SliceStable(b.events, func(i, j int) bool { return b.events[i].At < b.events[j].At })
 	current = b
